@@ -5,20 +5,31 @@ set -u
 cd "$(dirname "$0")"
 V=$(pwd)
 export GODEBUG=goindex=0 GOFLAGS=-mod=mod GOPROXY=off GOSUMDB=off GOTOOLCHAIN=local CGO_ENABLED=1
-B="$V/build"
-mkdir -p "$B" "$B/tmp" "$V/evidence" "$V/replays"
+# VERIF_REPO (default /repo) and VERIF_OUT (default /verif) exist for evaluating seeded
+# defects in scratch worktrees without touching /repo or the committed evidence; the
+# commands registered in MANIFEST.json never set them.
+REPO="${VERIF_REPO:-/repo}"
+OUT="${VERIF_OUT:-$V}"
+B="$OUT/build"
+mkdir -p "$B" "$B/tmp" "$OUT/evidence" "$OUT/replays"
 
 build() { # $1 = 1 to also build the race binary
   cd "$V/harness" || exit 2
-  cp /repo/go.sum go.sum 2>/dev/null
+  local MODFILE=()
+  if [ "$REPO" = /repo ] && [ "$OUT" = "$V" ]; then
+    cp /repo/go.sum go.sum 2>/dev/null
+  else
+    sed "s|=> /repo|=> $REPO|" go.mod > "$B/go.alt.mod"; cp "$REPO/go.sum" "$B/go.alt.sum"
+    MODFILE=(-modfile "$B/go.alt.mod")
+  fi
   local dep
-  dep=$(go list -m -f '{{.Dir}}' github.com/bytedance/gopkg 2>"$B/build.err") || { cat "$B/build.err" >&2; echo "HARNESS-FAULT: cannot locate bytedance/gopkg" >&2; exit 2; }
+  dep=$(go list "${MODFILE[@]}" -m -f '{{.Dir}}' github.com/bytedance/gopkg 2>"$B/build.err") || { cat "$B/build.err" >&2; echo "HARNESS-FAULT: cannot locate bytedance/gopkg" >&2; exit 2; }
   cat > "$B/overlay.json" <<JSON
 {"Replace": {"$dep/lang/mcache/mcache.go": "$V/shim/mcache.go", "$dep/lang/dirtmake/bytes.go": "$V/shim/bytes.go"}}
 JSON
-  go build -overlay "$B/overlay.json" -o "$B/simcheck" ./cmd/simcheck 2>"$B/build.err" || { cat "$B/build.err" >&2; echo "HARNESS-FAULT: build failed" >&2; exit 2; }
+  go build "${MODFILE[@]}" -overlay "$B/overlay.json" -o "$B/simcheck" ./cmd/simcheck 2>"$B/build.err" || { cat "$B/build.err" >&2; echo "HARNESS-FAULT: build failed" >&2; exit 2; }
   if [ "${1:-0}" = 1 ]; then
-    go build -race -overlay "$B/overlay.json" -o "$B/simcheck.race" ./cmd/simcheck 2>"$B/build.err" || { cat "$B/build.err" >&2; echo "HARNESS-FAULT: race build failed" >&2; exit 2; }
+    go build "${MODFILE[@]}" -race -overlay "$B/overlay.json" -o "$B/simcheck.race" ./cmd/simcheck 2>"$B/build.err" || { cat "$B/build.err" >&2; echo "HARNESS-FAULT: race build failed" >&2; exit 2; }
   fi
   cd "$V"
 }
@@ -38,7 +49,7 @@ case "${1:-}" in
     build $R
     case "${1:-quick}" in
       --replay) exec "$B/simcheck" -replay "$2" -racebin "$B/simcheck.race" -tmp "$B/tmp";;
-      quick|thorough) T=$1; shift; exec "$B/simcheck" -prop "$P" -tier "$T" -racebin "$B/simcheck.race" -evidence "$V/evidence" -replays "$V/replays" -known "$V/known_findings.json" -tmp "$B/tmp" "$@";;
+      quick|thorough) T=$1; shift; exec "$B/simcheck" -prop "$P" -tier "$T" -racebin "$B/simcheck.race" -evidence "$OUT/evidence" -replays "$OUT/replays" -known "$V/known_findings.json" -tmp "$B/tmp" "$@";;
       *) echo "usage" >&2; exit 2;;
     esac;;
   *) echo "usage: $0 --setup | Cxx quick|thorough | Cxx --replay file | --selftest" >&2; exit 2;;
